@@ -24,10 +24,22 @@ pub type Atom = [T; 3];
 pub type Fact = [String; 3];
 pub type Env = BTreeMap<String, String>;
 
+/// Filter between two variables of the rule body: `?a = ?b` / `?a != ?b` on the bound values (the only
+/// filter form whose meaning is the same for every value: Kolibrie's `evaluate_filters` compares two
+/// bound variables by dictionary id, and the dictionary is a bijection on lexical forms).
+#[derive(Clone, Debug, PartialEq, Eq, Hash)]
+pub struct Filter {
+    pub left: String,
+    pub equal: bool,
+    pub right: String,
+}
+
 #[derive(Clone, Debug, PartialEq, Eq, Hash)]
 pub struct Rule {
     pub premise: Vec<Atom>,
     pub conclusion: Vec<Atom>,
+    /// conjunction of variable-variable (in)equalities, evaluated on every body match
+    pub filters: Vec<Filter>,
 }
 
 /// "?x" is a variable named x, anything else a constant.
@@ -66,21 +78,43 @@ pub fn show_fact(f: &Fact) -> String {
     format!("{} {} {}", f[0], f[1], f[2])
 }
 
-/// "head1, head2 :- body1, body2"
+/// "?a != ?b" / "?a = ?b"
+pub fn filter(s: &str) -> Filter {
+    let w: Vec<&str> = s.split_whitespace().collect();
+    assert!(w.len() == 3 && (w[1] == "=" || w[1] == "!="), "filter must be '?a = ?b' or '?a != ?b': {:?}", s);
+    let var = |t: &str| t.strip_prefix('?').unwrap_or_else(|| panic!("filter operands must be variables: {:?}", s)).to_string();
+    Filter { left: var(w[0]), equal: w[1] == "=", right: var(w[2]) }
+}
+
+pub fn show_filter(f: &Filter) -> String {
+    format!("?{} {} ?{}", f.left, if f.equal { "=" } else { "!=" }, f.right)
+}
+
+/// "head1, head2 :- body1, body2" optionally followed by " | ?a != ?b, ?c = ?d" (filters)
 pub fn rule(s: &str) -> Rule {
-    let (h, b) = s.split_once(":-").unwrap_or_else(|| panic!("rule needs ':-': {:?}", s));
+    let (h, rest) = s.split_once(":-").unwrap_or_else(|| panic!("rule needs ':-': {:?}", s));
+    let (b, fl) = match rest.split_once('|') {
+        Some((b, f)) => (b, Some(f)),
+        None => (rest, None),
+    };
     Rule {
         premise: b.split(',').map(|a| atom(a.trim())).collect(),
         conclusion: h.split(',').map(|a| atom(a.trim())).collect(),
+        filters: fl.map(|f| f.split(',').map(|x| filter(x.trim())).collect()).unwrap_or_default(),
     }
 }
 
 pub fn show_rule(r: &Rule) -> String {
-    format!(
+    let mut s = format!(
         "{} :- {}",
         r.conclusion.iter().map(show_atom).collect::<Vec<_>>().join(", "),
         r.premise.iter().map(show_atom).collect::<Vec<_>>().join(", ")
-    )
+    );
+    if !r.filters.is_empty() {
+        s.push_str(" | ");
+        s.push_str(&r.filters.iter().map(show_filter).collect::<Vec<_>>().join(", "));
+    }
+    s
 }
 
 pub fn atom_vars(a: &Atom) -> Vec<String> {
@@ -96,10 +130,17 @@ pub fn atom_vars(a: &Atom) -> Vec<String> {
 }
 
 impl Rule {
-    /// every conclusion variable occurs in some premise
+    /// every conclusion variable and every filter variable occurs in some premise
     pub fn is_safe(&self) -> bool {
         let bound: BTreeSet<String> = self.premise.iter().flat_map(atom_vars).collect();
-        self.conclusion.iter().flat_map(atom_vars).all(|v| bound.contains(&v))
+        self.conclusion.iter().flat_map(atom_vars).all(|v| bound.contains(&v)) && self.filters.iter().all(|f| bound.contains(&f.left) && bound.contains(&f.right))
+    }
+    /// all filters hold under a body match (every filter variable is bound: the rule is safe)
+    pub fn filters_hold(&self, env: &Env) -> bool {
+        self.filters.iter().all(|f| match (env.get(&f.left), env.get(&f.right)) {
+            (Some(a), Some(b)) => (a == b) == f.equal,
+            _ => panic!("filter variable unbound in {}", show_rule(self)),
+        })
     }
 }
 
@@ -170,6 +211,9 @@ pub fn least_model(facts: &BTreeSet<Fact>, rules: &[Rule]) -> BTreeMap<Fact, usi
         let mut new: BTreeSet<Fact> = BTreeSet::new();
         for r in rules {
             for env in homomorphisms(&r.premise, model.keys(), &Env::new()) {
+                if !r.filters_hold(&env) {
+                    continue;
+                }
                 for c in &r.conclusion {
                     let f = instantiate(c, &env).expect("safe rule");
                     if !model.contains_key(&f) {
@@ -287,6 +331,37 @@ pub fn selftest() -> Vec<String> {
     }
     if !rule("?x q ?y :- ?x p ?y").is_safe() || rule("?x q ?z :- ?x p ?y").is_safe() {
         errs.push("datalog_pos/is_safe".into());
+    }
+    if !rule("?x q ?y :- ?x p ?y | ?x != ?y").is_safe() || rule("?x q ?y :- ?x p ?y | ?x != ?z").is_safe() {
+        errs.push("datalog_pos/is_safe(filter)".into());
+    }
+    // 8. filters: irreflexive copy; equality filter = repeated variable; filter inside a recursion
+    //    (the filtered join stops the closure at the diagonal); round trip of the text form
+    let mut expect = |name: &str, facts: &[&str], rules: &[&str], want: &[(&str, usize)]| {
+        let rs: Vec<Rule> = rules.iter().map(|r| rule(r)).collect();
+        let m = least_model(&fs(facts), &rs);
+        let w: BTreeMap<Fact, usize> = want.iter().map(|(f, s)| (fact(f), *s)).collect();
+        if m != w {
+            errs.push(format!("datalog_pos/{}: model {:?}, expected {:?}", name, m, w));
+        }
+    };
+    expect("filter-ne", &["a p a", "a p b"], &["?x q ?y :- ?x p ?y | ?x != ?y"], &[("a p a", 0), ("a p b", 0), ("a q b", 1)]);
+    expect("filter-eq", &["a p a", "a p b"], &["?x q ?y :- ?x p ?y | ?x = ?y"], &[("a p a", 0), ("a p b", 0), ("a q a", 1)]);
+    expect(
+        "filter-in-recursion",
+        &["a p b", "b p a"],
+        &["?x p ?z :- ?x p ?y, ?y p ?z | ?x != ?z"],
+        &[("a p b", 0), ("b p a", 0)],
+    );
+    expect(
+        "filter-two",
+        &["a p b", "b p c", "c p a"],
+        &["?x q ?z :- ?x p ?y, ?y p ?z | ?x != ?z, ?y != ?z"],
+        &[("a p b", 0), ("b p c", 0), ("c p a", 0), ("a q c", 1), ("b q a", 1), ("c q b", 1)],
+    );
+    let txt = "?x q ?z, ?z q ?x :- ?x p ?y, ?y p ?z | ?x != ?z, ?y = ?y";
+    if show_rule(&rule(txt)) != txt {
+        errs.push(format!("datalog_pos/rule text round trip: {:?}", show_rule(&rule(txt))));
     }
     errs
 }
